@@ -10,6 +10,7 @@ from common import Obligation, BackendResult, VERIF, WORK, REPO
 
 sys.path.insert(0, os.path.join(VERIF, "extract"))
 import extractor  # noqa: E402
+import rslex  # noqa: E402
 
 # unit -> properties served, tier, paired Kani harness for counterexamples
 UNITS_FILE = os.path.join(VERIF, "contracts", "units.json")
@@ -32,39 +33,96 @@ def verus_run(unit_rs, log, extra_args=()):
     return p.returncode, p.stdout, p.stderr, time.time() - t0, " ".join(cmd)
 
 
-ERR_RE = re.compile(r"^(error(?:\[E\d+\])?): (.*?)\n\s*--> [^:\n]+:(\d+):(\d+)", re.M)
-
-
 def parse_errors(stderr):
-    """-> list of (message, line)"""
+    """-> list of (message, [line numbers mentioned in the diagnostic], text)"""
     out = []
-    for m in ERR_RE.finditer(stderr):
-        out.append((m.group(2).strip(), int(m.group(3))))
+    blocks = re.split(r"\n(?=error|note: |warning)", "\n" + stderr)
+    for b in blocks:
+        b = b.strip("\n")
+        m = re.match(r"error(?:\[E\d+\])?: (.*)", b)
+        if not m:
+            continue
+        msg = m.group(1).strip()
+        if msg.startswith("aborting due to"):
+            continue
+        lines = [int(x) for x in re.findall(r"^\s*(\d+) [|/]", b, re.M)]
+        first = re.search(r"--> [^:\n]+:(\d+):\d+", b)
+        if first:
+            lines.insert(0, int(first.group(1)))
+        out.append((msg, lines, b))
     return out
 
 
-TOOL_LIMIT = re.compile(r"rlimit|Resource limit|not supported|unsupported|The verifier does not yet support|"
+TOOL_LIMIT = re.compile(r"rlimit|Resource limit|not supported|unsupported|does not yet support|"
                         r"internal error|panicked|cyclic self-reference|ill-typed", re.I)
 
 
-def fn_line_map(unit_text):
-    """line -> enclosing fn/proof fn name (innermost item starting before the line)"""
-    names = []
-    for i, l in enumerate(unit_text.split("\n"), 1):
-        m = re.match(r"\s*(?:pub(?:\([a-z]+\))?\s+)?(?:open\s+|closed\s+)?(?:broadcast\s+)?(?:proof\s+|spec\s+|exec\s+)?fn\s+(\w+)", l)
-        if m:
-            names.append((i, m.group(1)))
-    return names
+def list_fns(unit_text, items):
+    """Obligations of a unit = exec and proof functions with a body that Verus
+    checks (spec functions are definitions; external_body functions are
+    assumptions). -> list of dict(name, first, last, props, external)"""
+    # spliced specification text (edit regions) may contain braces before a
+    # declaration's `;`: blank it out, keeping line numbers
+    def blank(m):
+        c = m.group(2)
+        if re.search(r"requires|ensures|invariant|decreases|spec fn|proof \{", c):
+            return m.group(1) + re.sub(r"[^\n]", " ", c) + m.group(3)
+        return m.group(0)
+    unit_text = re.sub(r"(/\*@r(?:\d+)\*/)(.*?)(/\*@e\d+\*/)", blank, unit_text, flags=re.S)
+    toks = rslex.lex(unit_text)
+    # line number of each offset
+    nl = [0]
+    for i, ch in enumerate(unit_text):
+        if ch == "\n":
+            nl.append(i + 1)
+    import bisect
 
-
-def enclosing(names, line):
-    cur = None
-    for i, n in names:
-        if i <= line:
-            cur = n
+    def line_of(off):
+        return bisect.bisect_right(nl, off)
+    out = []
+    for k, t in enumerate(toks):
+        if not (t.kind == "ident" and t.text == "fn"):
+            continue
+        if k + 1 >= len(toks) or toks[k + 1].kind != "ident":
+            continue
+        name = toks[k + 1].text
+        if name == "main":
+            continue
+        prev = [x.text for x in toks[max(0, k - 8):k]]
+        if "spec" in prev[-3:]:
+            continue
+        if k >= 1 and toks[k - 1].text in ("spec_fn",):
+            continue
+        external = "external_body" in prev
+        depth = 0
+        body = None
+        for j in range(k + 2, len(toks)):
+            tt = toks[j]
+            if tt.kind == "punct":
+                if tt.text in "([":
+                    depth += 1
+                elif tt.text in ")]":
+                    depth -= 1
+                elif depth == 0 and tt.text in "{;":
+                    body = j
+                    break
+        if body is None or toks[body].text == ";":
+            continue
+        end = rslex.match_close(toks, body)
+        first, last = line_of(t.start), line_of(toks[end].start)
+        item = None
+        for it in items:
+            if it["first_line"] <= first <= it["last_line"]:
+                item = it
+        if item is not None:
+            nm = item["name"] if item["name"].split("::")[-1] == name else item["name"] + "::" + name
+            props = item["props"]
+            src = f'{item["file"]}:{item["name"]}'
         else:
-            break
-    return cur
+            nm, props, src = name, None, None
+        out.append({"name": nm, "first": first, "last": last, "props": props,
+                    "external": external, "src": src, "fn": name})
+    return out
 
 
 def run(prop, tier, only_units=None):
@@ -117,80 +175,59 @@ def run(prop, tier, only_units=None):
         verified, errors = vres.get("verified", 0), vres.get("errors", 0)
         smt_ms = j.get("times-ms", {}).get("smt", {}).get("total", 0)
         unit_text = open(unit_rs).read()
-        names = fn_line_map(unit_text)
         errs = parse_errors(err)
         if vres.get("encountered-vir-error") or (not vres.get("success") and not errs and errors == 0):
             first = err.strip().split("\n")[:3]
             res.undecided.append(f"verus/{name}: unit rejected before verification (tool limit or "
                                  f"unsupported construct): {' | '.join(first)[:300]}")
             continue
-        # obligations = functions of this unit that Verus checked
-        funcs = [k.split("::", 1)[1] for k in j.get("func-details", {}).keys()
-                 if not k.startswith("vstd::") and "::" in k]
-        # spec functions and assumed specifications are definitions, not obligations
-        spec_fns = set(re.findall(r"\bspec\s+fn\s+(\w+)", unit_text))
-        checked_fns = set(re.findall(r"(?<!spec )\bfn\s+(\w+)", unit_text)) - spec_fns
-        funcs = [f for f in funcs if f.split("::")[-1] in checked_fns]
-        ext_fns = set(re.findall(r"#\[verifier::external_body\]\s*(?:/\*@e\d+\*/)?\s*(?:pub\s+)?(?:proof\s+)?fn\s+(\w+)", unit_text))
-        funcs = [f for f in funcs if f.split("::")[-1] not in ext_fns or True]
-        item_of_line = info["items"]
-        failed_by_fn = {}
-        tool_by_fn = {}
-        for msg, line in errs:
-            fn = enclosing(names, line) or "?"
-            src = ""
-            for it in item_of_line:
-                if it["first_line"] <= line <= it["last_line"]:
-                    src = f' [from {it["file"]}:{it["src_line"]}]'
-            entry = f"{msg} (unit line {line}: {unit_text.splitlines()[line-1].strip()[:120]}){src}"
-            if TOOL_LIMIT.search(msg):
-                tool_by_fn.setdefault(fn, []).append(entry)
-            else:
-                failed_by_fn.setdefault(fn, []).append(entry)
-        res.extra["diag"][name] = err
-        item_fns = {}
-        for it in info["items"]:
-            item_fns[it["name"]] = it
         if verified + errors == 0:
             res.undecided.append(f"verus/{name}: zero obligations (vacuous unit)")
             continue
-        seen = set()
-        for fn in funcs:
-            short = fn.split("::")[-1]
-            key = fn
-            if key in seen:
+        res.extra["diag"][name] = err
+        fns = [f for f in list_fns(unit_text, info["items"]) if not f["external"]]
+        failed_by, tool_by = {}, {}
+        ulines = unit_text.splitlines()
+        for msg, lines, block in errs:
+            hit = None
+            score = {}
+            for ln in lines:
+                cands = [f for f in fns if f["first"] <= ln <= f["last"]]
+                if cands:
+                    f = min(cands, key=lambda f: f["last"] - f["first"])
+                    score[f["name"]] = score.get(f["name"], 0) + 1
+            if score:
+                hit = max(score.items(), key=lambda kv: kv[1])[0]
+            where = ""
+            if lines:
+                where = f" (unit line {lines[0]}: {ulines[lines[0]-1].strip()[:110]})"
+            entry = msg + where
+            tgt = tool_by if TOOL_LIMIT.search(msg) else failed_by
+            tgt.setdefault(hit or "?", []).append(entry)
+        mine = []
+        for f in fns:
+            # an item tagged with properties serves only those; lemmas serve the whole unit
+            if f["props"] is not None and prop not in f["props"]:
                 continue
-            seen.add(key)
-            # attribute by last path segment
-            fails = failed_by_fn.get(short, [])
-            tools = tool_by_fn.get(short, [])
-            status = "discharged"
-            if fails:
-                status = "failed"
-            elif tools:
-                status = "undecided"
-            ob = Obligation(name=f"verus/{name}/{fn}", prop=prop,
-                            backend="verus 0.2026.09.13 (z3)", kind="unbounded",
-                            status=status, vars=u.get("vars", "all inputs, all iterations, all type parameters"),
-                            time_s=0.0, detail=fails or tools,
-                            functions=[f'{it["file"]}:{it["name"]}' for it in info["items"]
-                                       if it["name"].split("::")[-1] == short or short in it["name"]])
+            fails = failed_by.get(f["name"], [])
+            tools = tool_by.get(f["name"], [])
+            status = "failed" if fails else ("undecided" if tools else "discharged")
+            ob = Obligation(name=f"verus/{name}/{f['name']}", prop=prop,
+                            backend="verus 0.2026.09.13 (z3)", kind="unbounded", status=status,
+                            vars=u.get("vars", "all inputs, all iterations, all type parameters"),
+                            detail=fails or tools,
+                            functions=[f["src"]] if f["src"] else [])
             res.obligations.append(ob)
+            mine.append(ob)
             if status == "undecided":
                 res.undecided.append(f"{ob.name}: {tools[0][:200]}")
-        # errors that could not be attributed to a listed function
-        known = {f.split("::")[-1] for f in funcs}
-        for fn, fails in list(failed_by_fn.items()) + list(tool_by_fn.items()):
-            if fn not in known:
-                res.undecided.append(f"verus/{name}: error outside any checked function ({fn}): {fails[0][:200]}")
-        if res.obligations:
-            # spread the unit's SMT time over its obligations for the evidence
-            mine = [o for o in res.obligations if o.name.startswith(f"verus/{name}/")]
-            for o in mine:
-                o.time_s = smt_ms / 1000.0 / max(1, len(mine))
-                o.checks = 0
-            if mine:
-                mine[0].checks = verified + errors
+        for key, fails in list(failed_by.items()) + list(tool_by.items()):
+            if key == "?":
+                res.undecided.append(f"verus/{name}: diagnostic outside any checked function: {fails[0][:200]}")
+        for o in mine:
+            o.time_s = smt_ms / 1000.0 / max(1, len(fns))
+        if mine:
+            mine[0].checks = verified + errors
         res.trusted += scan_trusted(name, unit_text, info)
     res.checker_cmd = " ; ".join(cmds)
     res.wall_s = time.time() - t0
